@@ -535,7 +535,18 @@ pub fn child_main(prop: &Prop, tier: Tier, seed: u64, shard: usize, nshards: usi
     let ctx = std::thread::Builder::new()
         .stack_size(256 << 20)
         .spawn(move || {
-            run(&mut ctx);
+            // a panic of the harness outside `guard` normally is a harness bug (exit 2). One exception: helpers that
+            // need the library to decode an input the *reference* accepts panic with a marker; that is a finding.
+            let r = catch_unwind(AssertUnwindSafe(|| run(&mut ctx)));
+            if let Err(e) = r {
+                let msg = e.downcast_ref::<String>().cloned().or_else(|| e.downcast_ref::<&str>().map(|s| s.to_string())).unwrap_or_default();
+                if msg.contains("LIBRARY-REJECTS-VALID-INPUT") {
+                    ctx.violation("library rejects or panics on a valid input built by the harness", msg, Value::Null);
+                    ctx.count("shards cut short by a library failure on a valid input");
+                } else {
+                    std::panic::resume_unwind(e);
+                }
+            }
             ctx
         })
         .unwrap()
